@@ -14,5 +14,60 @@ RULE = ("case = hierarchy x representation (tree, GE, SGE, dSGE, stack) x a sequ
         "(program, genes, gengy_* metadata, synthesis contexts); results are consumed (mapped, mutated again, crossed) by later operations of the sequence")
 
 
+def gen_step_cases(seed, tier):
+    """every built-in step and combinator on populations whose fitness values include ties, NaN and infinities"""
+    from harness import flow
+    r = flow.rng(seed, "c09s")
+    big = tier == "thorough"
+    leaves = [["elitism"], ["novelty"], ["tournament", 2, False], ["tournament", 3, True], ["mutation", 1], ["crossover", 1], ["identity"]]
+    vals = [[0, 1], [1, 1], [1, 2], [3, 1], [5, 2], "nan", "inf", "-inf"]
+    cases = []
+    for mo in (False, True):
+        steps = list(leaves) + ([["lexicase", False], ["lexicase", True]] if mo else [])
+        steps += [["seq", [["tournament", 2, False], ["crossover", 1], ["mutation", 1]]],
+                  ["par", [["elitism"], ["novelty"], ["tournament", 2, False]], [[1, 1], [1, 1], [2, 1]]],
+                  ["excl", [["mutation", 1], ["crossover", 1]], [[1, 1], [1, 1]]]]
+        if mo:
+            steps += [["seq", [["lexicase", False], ["mutation", 1]]], ["par", [["lexicase", True], ["elitism"]], [[1, 1], [1, 1]]]]
+        for st in steps:
+            for _ in range(3 if not big else 10):
+                n = r.choice([3, 5, 8])
+                ncomp = r.choice([2, 3]) if mo else 1
+                table = [[r.choice(vals) if r.random() < 0.25 else r.choice(vals[:5]) for _ in range(ncomp)] for _ in range(n)]
+                cases.append({"op": "inputs", "step": st, "n": n, "k": r.choice([n, max(1, n - 1), max(1, n // 2)]), "form": r.choice(["list", "population", "oneshot"]),
+                              "mo": mo, "mins": [r.random() < 0.5 for _ in range(ncomp)], "table": table, "seed": r.randrange(1000)})
+    return cases
+
+
+def step_phase(chk, tier, seed, replay_case=None):
+    from harness import core
+    cases = [replay_case] if replay_case else gen_step_cases(seed, tier)
+    res = core.run_impl("steps", {"cases": cases}, timeout=900)
+    if isinstance(res, dict) and res.get("driver_failed"):
+        chk.violation("correspondence", "the steps could not be driven: " + res["stderr"][-600:], {"component": "steps: inputs untouched", "stderr": res["stderr"]}, False)
+        return {"step_applications": 0}
+    bad = 0
+    kinds = {}
+    for c, o in zip(cases, res):
+        oo = o.get("ok", o) if isinstance(o, dict) else {}
+        kinds[c["step"][0]] = kinds.get(c["step"][0], 0) + 1
+        if oo.get("n_changed"):
+            bad += 1
+            if bad <= 2:
+                chk.violation("oracle", f"[steps] step {c['step']} modified {oo['n_changed']} of the {c['n']} individuals it was given (genotype, phenotype, cached fitness [aggregate, components, identity of the component list]): "
+                              f"before/after of the first: {str(oo['changed'][0])[:500]}; population form {c['form']}, objectives minimise={c['mins']}, fitness table {c['table']}",
+                              {"component": "steps: inputs untouched", "driver": "steps", "case": c, "observed": oo}, True)
+    return {"step_applications": len(cases), "steps": kinds, "applications_with_nan_or_inf_fitness": sum(1 for c in cases if any(isinstance(x, str) for row in c["table"] for x in row)),
+            "inputs_modified": bad}
+
+
 def run(tier, seed, replay=None):
-    return c06.run_rep(PROP, "run_c09", (), TRUSTED, RULE, tier, seed, replay)
+    if replay and replay["replay"].get("case", {}).get("op") == "inputs":
+        from harness import core
+        chk = core.Check(PROP, tier, seed)
+        proof = core.proof_step(PROP, thorough=False)
+        cov = step_phase(chk, tier, seed, replay["replay"]["case"])
+        print("replayed one step application:", "inputs MODIFIED" if cov.get("inputs_modified") else "inputs untouched")
+        return chk.finish(proof, TRUSTED, dict(cov, evaluations=1, distinct_nontrivial=1), RULE)
+    return c06.run_rep(PROP, "run_c09", (), TRUSTED, RULE + "; and every built-in step / combinator applied to populations whose cached fitness includes ties, NaN and infinite components: the individuals handed in are compared with their snapshot afterwards",
+                       tier, seed, replay, extra=lambda chk, cases, res: step_phase(chk, tier, seed))
